@@ -64,7 +64,7 @@ type xferSpec struct {
 	permute   bool
 	cut       int // >=0: the server->client stream ends after that many bytes (C04)
 	cutErr    bool
-	failWrite int // >0: that client->server write fails (C04)
+	failWrite int  // >0: that client->server write fails (C04)
 	after     bool // C04: issue one more call after the transfer
 	noOffset  bool // do not judge the File offset (C01 speaks about bytes and counts; offsets are C12/C13)
 }
